@@ -150,6 +150,20 @@ Proof.
     rewrite P. reflexivity.
   - reflexivity.
 Qed.
+(* ---- parse_host ------------------------------------------------------------------------------------ *)
+Theorem src_parse_host_eq h : src_parse_host O h = parse_host O h.
+Proof.
+  unfold src_parse_host, parse_host. cbv zeta.
+  destruct h as [|h0 hr]; [reflexivity|]. cbn [nonempty negb py_char0].
+  assert (L : (py_char_last (h0 :: hr) =? 93) = last_is 93 (h0 :: hr))
+    by (unfold py_char_last, last_is; destruct (rev (h0 :: hr)); reflexivity).
+  rewrite L. unfold py_strip1.
+  destruct (memN 58 (h0 :: hr) && (h0 =? 91) && last_is 93 (h0 :: hr)).
+  - destruct (o_inet6 O (removelast (tl (h0 :: hr)))) as [[| |]|e|w]; cbn [mbind]; try reflexivity.
+    destruct (o_inet4 O (removelast (tl (h0 :: hr)))) as [b|e|w]; reflexivity.
+  - destruct (o_inet4 O (h0 :: hr)) as [b|e|w]; reflexivity.
+Qed.
+
 (* ---- URL.get_authority(full_quote, with_userinfo=True) ------------------------------------------------- *)
 Variable enc : text -> text.       (* the idna codec on the host, where it answers *)
 
